@@ -28,6 +28,15 @@ CLAIMED = {
  "C18": ("proof", "E1", "cycle algebra of the boundary reconstruction: try_extend equals a functional spec (Err leaves the state untouched, result invariant under rotating the triple), init resets and installs the triangle, every step keeps a single cycle; compute_boundary permutes the removed vertices and ends with chain(edges) = sum of triangle boundaries; theorem: outcomes for re-ordered / rotated inputs are the same cycle. Unbounded (loop invariants, recursive lemmas)",
          "never-stuck (the greedy search always finds an attachable triangle) is NOT decided; which vertices are removed and 'same volume' are float code outside E1; SimpleCycle::new assumed (external_body)",
          TECH + " — Verus on functions sliced verbatim from /repo/src with spliced contracts, loop invariants and lemmas"),
+ "C08": ("proof", "E2+E3", "projection mechanisms: Generator::new keeps id and active coordinates bit for bit and zeroes unused ones for every bit pattern (kani::ensures on the real fn + 2-safety form); vector_is_valid iff unused components exactly zero (kani::ensures, all bit patterns); the anchor/width normalisation prefix of both build routes; Vertex::from_dual's radius in the active subspace; cuboid triples exactly the active axes",
+         "A-REAL for the E2 part; E3 cuboid over a stated input window; closed-form 1D / 2D-equals-3D-slab statements not decided (composed float algorithm)",
+         TECH + " — Kani function contracts (proof_for_contract) on the real crate + E2 contracts on from_dual, cuboid and the normalisation slices"),
+ "C06": ("proof", "E2+E3", "the mechanisms that make periodic faces carry lattice shifts, function by function: the iterator pushes exactly the 3^d shifts (i,j,k)*width on active axes, each once (all widths, all dimensionalities); the map closure reports None iff the query shift is zero, else the negated shift; neighbour = generator + shift; labels passed through to the face; cuboid triples the initial cell along exactly the active axes",
+         "A-REAL; E3 cuboid window; equivalence with the 3^d-replicated tessellation, absence of boundary faces and translation invariance not decided (composed float algorithm)",
+         TECH + " — E2 contracts on slices of rtree_nn.rs / convex_cell.rs / half_space.rs + Kani harness on cuboid with HalfSpace::new replaced by its verified contract"),
+ "C05": ("proof", "E2+E3", "the exact-arithmetic boundary: grid domain for every queryable position incl. generators exactly on walls (reals: all boxes; bits: windows); HalfSpace::{new,clip} under kani::requires/ensures on the real functions (error bound finite positive, answer in {-1,0,+1}, 0 iff within the bound, never NaN) with glam's dot under its own proved contract; wiring of the exact path in clip_by_plane; right_loc of a wall is the mirror image",
+         "A-REAL, A-ROUND, input windows; absence of the three panic sites, termination of build and adequacy of errb as a rounding bound are NOT decided",
+         TECH + " — Kani function contracts (proof_for_contract, stub of glam dot by its proved contract) + E2 contracts on iloc / right_loc / the vertex-loop slice"),
 }
 NA = {
 }
